@@ -10,7 +10,8 @@ component the same whether it is compared at top level or as a field."
 Model: `Equal.top` / `Equal.field` (S/Equal.lean). Specification: `Spec.structEq`
 (Spec/StructEq.lean). Supportedness: `Supported` / `SupportedComp` (S/EqualSupported.lean).
 Values are finite trees, hence acyclic. Only theorems and their non-vacuity examples live here; the
-proofs are in Lemmas/Equal.lean.
+proofs, and the concrete world the examples use (`C02.env`, `tNode`, `x1`, `y1`, `z1`, `tMap`, `m1`,
+`m2`), are in Lemmas/Equal.lean.
 -/
 import GoderiveModel.Lemmas.Equal
 
@@ -18,59 +19,6 @@ set_option linter.unusedSimpArgs false
 
 namespace Goderive.C02
 open Goderive Val
-
-/-! ### A concrete world used by the non-vacuity examples
-
-```go
-type Node struct { N int64; Next *Node; Tags []string; Pts map[string]Pt; Raw []byte }   // named 0
-type Pt   struct { X, Y float64 }                                                       // named 1
-```
--/
-
-def env : Env := { decls := [
-  { under := .struct (.fcons (.basic (.int 64 true)) (.fcons (.ptr (.named 0))
-      (.fcons (.slice (.basic .string)) (.fcons (.map (.basic .string) (.named 1))
-      (.fcons (.slice (.basic (.int 8 false))) .fnil))))), canEq := false },
-  { under := .struct (.fcons (.basic (.float 64)) (.fcons (.basic (.float 64)) .fnil)),
-    canEq := true } ] }
-
-def tNode : Ty := .named 0
-
-def pt (a b : Nat) : Val := .struct (.scons (.flt 64 a) (.scons (.flt 64 b) .snil))
-
-/-- `Node{N: 2}`: every pointer, slice and map nil -/
-def leaf : Val :=
-  .struct (.scons (.int 2) (.scons .nilv (.scons .nilv (.scons .nilv (.scons .nilv .snil)))))
-
-/-- `Node{N: n, Next: &leaf, Tags: {"hi"}, Pts: {"a": {+0|-0, 1}, "b": {5, 6}}, Raw: {1, 2}}` with the
-given heap addresses, spare capacity and map insertion order; `z` is the bit pattern of `Pts["a"].X` -/
-def node (n : Int) (a1 a2 a3 a4 spare : Nat) (z : Nat) (order : Bool) : Val :=
-  .struct (.scons (.int n) (.scons (.ptr a1 leaf)
-    (.scons (.slice a2 spare (.scons (.str [104, 105]) .snil))
-    (.scons (.map a3 (if order then
-        .scons (.pair (.str [97]) (pt z 1)) (.scons (.pair (.str [98]) (pt 5 6)) .snil)
-      else .scons (.pair (.str [98]) (pt 5 6)) (.scons (.pair (.str [97]) (pt z 1)) .snil)))
-    (.scons (.slice a4 0 (.scons (.int 1) (.scons (.int 2) .snil))) .snil)))))
-
-/-- two structurally identical values: different addresses, spare capacity, map order, `+0` vs `-0` -/
-def x1 : Val := node 1 10 11 12 13 3 0 true
-def y1 : Val := node 1 20 21 22 23 0 (2 ^ 63) false
-/-- a structurally different one (`N`) -/
-def z1 : Val := node 7 10 11 12 13 3 0 true
-
-theorem env_flagsOk : env.flagsOk = true := by decide
-theorem env_supported : Supported env tNode = true := by decide
-theorem env_supportedComp : SupportedComp env tNode = true := by decide
-theorem x1_typed : hasType env tNode x1 = true := by goderive_eval [env, tNode, x1, node, leaf, pt]
-theorem y1_typed : hasType env tNode y1 = true := by goderive_eval [env, tNode, y1, node, leaf, pt]
-theorem z1_typed : hasType env tNode z1 = true := by goderive_eval [env, tNode, z1, node, leaf, pt]
-theorem x1_nanFree : nanFree x1 = true := by decide
-theorem y1_nanFree : nanFree y1 = true := by decide
-theorem z1_nanFree : nanFree z1 = true := by decide
-theorem x1_y1_structEq : Spec.structEq env tNode x1 y1 = true := by
-  goderive_eval [env, tNode, x1, y1, node, leaf, pt]
-theorem x1_z1_structEq : Spec.structEq env tNode x1 z1 = false := by
-  goderive_eval [env, tNode, x1, z1, node, leaf, pt]
 
 /-! ### 1. The emitted code computes structural equality and never panics -/
 
@@ -268,18 +216,6 @@ theorem equal_map_perm (env : Env) (T : Ty) (a a' b b' : Nat) (es es' fs fs' : V
   rw [equal_correct env T _ _ hf h1 h3 hs, equal_correct env T _ _ hf h2 h4 hs,
     structEq_map_perm_left env T a a' es es' _ h1 h2 hp,
     structEq_map_perm_right env T b b' fs fs' _ h3 h4 hq]
-
-/-- a map type over the example world: `map[string]Pt`, and two insertion orders of one map -/
-def tMap : Ty := .map (.basic .string) (.named 1)
-def m1 : Val := .scons (.pair (.str [97]) (pt 0 1)) (.scons (.pair (.str [98]) (pt 5 6)) .snil)
-def m2 : Val := .scons (.pair (.str [98]) (pt 5 6)) (.scons (.pair (.str [97]) (pt 0 1)) .snil)
-
-theorem m1_typed (a : Nat) : hasType env tMap (.map a m1) = true := by
-  goderive_eval [env, tMap, m1, pt]
-theorem m2_typed (a : Nat) : hasType env tMap (.map a m2) = true := by
-  goderive_eval [env, tMap, m2, pt]
-theorem m1_perm_m2 : m1.toList.Perm m2.toList := by
-  simp only [m1, m2, Val.toList]; exact List.Perm.swap ..
 
 example (y : Val) : Spec.structEq env tMap (.map 1 m1) y = Spec.structEq env tMap (.map 2 m2) y :=
   structEq_map_perm_left env tMap 1 2 m1 m2 y (m1_typed 1) (m2_typed 2) m1_perm_m2
